@@ -315,8 +315,32 @@ func e2eCase(app *fx.App, tr *fx.Trace, r *fx.Rng) {
 				"active": ok.GetValidatorStatus(ctx, vals[i].ValAddress).IsActive, "prices": pricesOf[i]})
 		}
 	}
-	tbt, err := sk.TotalBondedTokens(ctx)
+	// the validator-set changes of the block (here: the jailing) are applied by the staking end-blocker, which the application
+	// runs BEFORE the feeds end-blocker: the bonded pool the quorum is taken from no longer holds a jailed validator's tokens
+	specCtx, _ := ctx.CacheContext()
+	_, err := sk.EndBlocker(specCtx)
 	fx.Must(err)
+	tbt, err := sk.TotalBondedTokens(specCtx)
+	fx.Must(err)
+	stakingFirst := true
+	for _, mod := range app.EndBlockOrderForVerif() {
+		if mod == feedstypes.ModuleName {
+			stakingFirst = false
+			break
+		}
+		if mod == stakingtypes.ModuleName {
+			break
+		}
+	}
+	if stakingFirst {
+		_, err = sk.EndBlocker(ctx)
+		fx.Must(err)
+	}
+	defer func() {
+		if !stakingFirst {
+			_, _ = sk.EndBlocker(ctx)
+		}
+	}()
 	quorum := sdkmath.LegacyNewDecFromInt(tbt).Mul(sdkmath.LegacyMustNewDecFromStr(params.PriceQuorum)).TruncateInt()
 	var errS string
 	if r.Chance(1, 3) {
